@@ -362,6 +362,7 @@ func (w *kqueue) addWatch(name string, flags uint32, listDir bool) (string, erro
 			if !filepath.IsAbs(link) {
 				link = filepath.Join(filepath.Dir(name), link)
 			}
+			link = filepath.Clean(link)
 
 			_, alreadyWatching = w.watches.byPath(link)
 			if alreadyWatching {
